@@ -344,7 +344,14 @@ where
                         // Wait for notification when the stream goes pending
                         Poll::Pending       => {
                             #[cfg(desync_verif)] crate::scheduler::verif_hooks::point("pipe:before_register_closed");
-                            stream_core.lock().unwrap().notify_stream_closed = Some(desync_waker.clone());
+                            let mut stream_core = stream_core.lock().unwrap();
+
+                            // If the output stream was dropped while we were polling, nothing will wake us for it: stop now
+                            if stream_core.closed {
+                                return false;
+                            }
+
+                            stream_core.notify_stream_closed = Some(desync_waker.clone());
                             return true
                         },
 
